@@ -314,7 +314,7 @@ def check_mtl(case, ctx):
     if vio:
         ctx.violation(vio[0], slim, vio[1])
     _witness(ctx, t, k, retain)
-    if t >= 2 and k != 1 and any(n["op"] == "pyfunc" for part in ("trunk", "nodes") for n in desc.get(part, []) if isinstance(n, dict)):
+    if t >= 2 and k != 1 and any(n["op"] == "pyfunc" for n in desc.get("trunk_nodes", [])):
         ctx.count("w_batched_sweep_through_python_autograd_function")
     ctx.evaluated(fingerprint(slim), nontrivial=t >= 2 and k is not None and 1 < k < t)
     ctx.sample({"entry": "mtl_backward", "tasks": t, "k": k, "retain_graph": retain,
